@@ -140,7 +140,9 @@ struct ShadowPolicy : std::conditional_t<(OMIT & 4) != 0, DeclNothing<0>, DeclPa
 		count("policy_map_calls");
 		return base;
 	}
-	uintptr_t map(size_t len) requires (!ALIGNED) { return do_map(len, 0); }
+	// (OMIT bit 16: the policy offers BOTH forms of map(); the pool is expected to use the aligned one, the model treats a call of
+	// the plain one like that of a plain-only policy)
+	uintptr_t map(size_t len) requires (!ALIGNED || (OMIT & 16) != 0) { if(ALIGNED) count("plain_map_calls_of_a_policy_that_also_has_the_aligned_form"); return do_map(len, 0); }
 	uintptr_t map(size_t len, size_t align) requires ALIGNED {
 		if(align != SB) proto("map-align", strf("map(len, align) asked for alignment %zu, expected the superblock size %zu", align, (size_t)SB));
 		return do_map(len, align);
